@@ -1,3 +1,4 @@
+import RavenModel.Model.MailValidity
 import RavenModel.Model.Plan
 import RavenModel.Model.World
 /-! # C05 — a session reaches only its own stores and only the mailbox it selected -/
@@ -92,5 +93,25 @@ theorem plan_resolution_exact :
      (b!"db.GetMailboxByNamePerUser"), (b!"db.MailboxExistsPerUser"), (b!"storage.DeliverMessage")].all
       (fun f => Plan.free (b!"LIKE(") (Plan.trace f) && !(Plan.trace f).isEmpty) = true := by
   decide
+
+/-! ## the selection is a mailbox, not a row id (repair d33c862) -/
+
+/-- C05.11  a session remembers the UIDVALIDITY of the mailbox it selected and, before every command, looks the mailbox up
+again and compares (`dropStaleSelection`). Whatever happens in between — the mailbox deleted by this session or another one,
+its row id handed to a mailbox created or renamed later, any history at all and any clock — a mailbox that passes the
+comparison **is the incarnation that was selected**: no other mailbox of the store ever carries that UIDVALIDITY
+(`Mail.validity_identifies_incarnation`). Before the repair the session went by the row id alone: after `SELECT common`,
+`DELETE common`, `RENAME INBOX y` it read, flagged and expunged `y`. -/
+theorem selection_denotes_selected_incarnation (now : Nat) (ops more : List Mail.Op) :
+    ∀ b ∈ (Mail.run (Mail.Store.init now) ops).boxes, ∀ b' ∈ (Mail.run (Mail.Store.init now) (ops ++ more)).boxes,
+      b'.validity = b.validity → b'.inc = b.inc := by
+  intro b hb b' hb' hv
+  exact (Mail.validity_identifies_incarnation now ops more b hb b' hb' hv.symm).symm
+
+-- non-vacuity: `common` selected, deleted, and INBOX renamed to a new mailbox: the new mailbox has another UIDVALIDITY
+example :
+    ((Mail.run (Mail.Store.init 5) [.create (b!"common") 5]).boxes.map (fun b => (b.name, b.validity))).getLast? = some ((b!"common"), 10) ∧
+    ((Mail.run (Mail.Store.init 5) [.create (b!"common") 5, .delete (b!"common"), .rename (b!"INBOX") (b!"y") 5]).boxes.map
+      (fun b => (b.name, b.validity))).getLast? = some ((b!"y"), 11) := by decide
 
 end Raven.Props.C05
